@@ -16,6 +16,7 @@ import (
 
 	"github.com/hashicorp/go-plugin/internal/grpcmux"
 	"github.com/hashicorp/go-plugin/internal/plugin"
+	"github.com/hashicorp/go-plugin/internal/verifhook"
 	"github.com/hashicorp/go-plugin/runner"
 
 	"github.com/oklog/run"
@@ -316,6 +317,7 @@ func (b *GRPCBroker) Accept(id uint32) (net.Listener, error) {
 				log.Printf("[ERR]: error listening for knocks, id: %d, error: %s", id, err)
 			}
 		}()
+		verifhook.Point("grpcbroker.accept.mux-mid")
 
 		ln, err := b.muxer.Listener(id, p.doneCh)
 		if err != nil {
@@ -357,6 +359,7 @@ func (b *GRPCBroker) Accept(id uint32) (net.Listener, error) {
 			return nil, err
 		}
 	}
+	verifhook.Point("grpcbroker.accept.pre-send")
 	err = b.streamer.Send(&plugin.ConnInfo{
 		ServiceId: id,
 		Network:   advertiseNet,
@@ -541,6 +544,7 @@ func (b *GRPCBroker) DialWithOptions(id uint32, opts ...grpc.DialOption) (conn *
 	case <-time.After(5 * time.Second):
 		return nil, fmt.Errorf("timeout waiting for connection info")
 	}
+	verifhook.Point("grpcbroker.dial.got-info")
 
 	network, address := c.Network, c.Address
 	if b.addrTranslator != nil {
